@@ -49,15 +49,16 @@ JoinMod(a, n, w) == (a % P2(S * n)) % P2(w)                  \* pylong_join(n, d
 JoinT(t, a, n) == LET x == a % P2(S * n) IN IF Fits(t, x) THEN x ELSE eBad   \* pylong_join(n, digits, TYPE)
 
 ---------------------------------------------------------------------------
-(* objects: [kind, ck (PyLong_Check), v, v2]                                *)
-Kinds == {"pylong", "index_only", "nbint_only", "both_same", "both_differ",
+(* objects: [kind, ck (PyLong_Check), v, v2].  "pylong": int, bool, int subclass; "sublong_ov": int subclass *)
+(* of value v whose __int__ is overridden (returns v2); the others are not ints and offer nb_index / nb_int *)
+Kinds == {"pylong", "sublong_ov", "index_only", "nbint_only", "both_same", "both_differ",
           "nbint_raises_V", "nbint_raises_O", "strlike", "no_slots"}
 None == [k |-> "none", v |-> 0]
 Val(v) == [k |-> "val", v |-> v]
 Raise(e) == [k |-> "raise", v |-> e]
 Idx(o) == IF o.kind \in {"index_only", "both_same", "both_differ"} THEN Val(o.v) ELSE None     \* nb_index
 NbInt(o) == CASE o.kind \in {"nbint_only", "both_same"} -> Val(o.v)                              \* nb_int
-              [] o.kind = "both_differ" -> Val(o.v2)
+              [] o.kind \in {"both_differ", "sublong_ov"} -> Val(o.v2)
               [] o.kind = "nbint_raises_V" -> Raise(eValue)
               [] o.kind = "nbint_raises_O" -> Raise(eOverflow)
               [] OTHER -> None
@@ -90,8 +91,9 @@ ChunkLoop(t, chunk, bits, step, val) ==
   IF bits < t.w - chunk
   THEN ChunkLoop(t, chunk, bits + chunk, step \div P2(chunk), val + (step % P2(chunk)) * P2(bits))
   ELSE [bits |-> bits, step |-> step, val |-> val]
-LargeChunks(t, abi, v, br) ==
-  LET chunk == abi.wl - 2 neg == v < 0 IN
+LargeChunks(t, abi, v0, xl, br) ==
+  LET v == xl                      \* `PyLong_CheckExact(x) ? x : PyNumber_Long(x)`: xl = v0 unless __int__ is overridden
+      chunk == abi.wl - 2 neg == v < 0 IN
   IF ~t.s /\ neg THEN Err(t, eOverflow, br)
   ELSE LET l == ChunkLoop(t, chunk, 0, IF neg THEN -v - 1 ELSE v, 0)
            id == AsSigned(l.step, abi.wl)
@@ -102,34 +104,34 @@ LargeChunks(t, abi, v, br) ==
           ELSE LET val == l.val + id.v * P2(l.bits) IN
                IF ~Fits(t, val) THEN R(0, 0, br, "ub")
                ELSE R(IF neg THEN -val - 1 ELSE val, 0, br, "ok")
-Large(t, abi, c, v, br) == IF c.chunks THEN LargeChunks(t, abi, v, br) ELSE LargeBytes(t, v, br)
+Large(t, abi, c, v, xl, br) == IF c.chunks THEN LargeChunks(t, abi, v, xl, br) ELSE LargeBytes(t, v, br)
 
 \* tails of __Pyx_PyULong_ / __Pyx_PySLong_
-UTail(t, abi, c, v) ==
+UTail(t, abi, c, v, xl) ==
   IF t.w <= abi.wl THEN LET r == AsUnsigned(v, abi.wl) IN Verify(t, U(abi.wl), r.v, r.e, TRUE, "u_api_long")
   ELSE IF t.w <= abi.wll THEN LET r == AsUnsigned(v, abi.wll) IN Verify(t, U(abi.wll), r.v, r.e, TRUE, "u_api_llong")
-  ELSE Large(t, abi, c, v, "u_large")
-STail(t, abi, c, v) ==
+  ELSE Large(t, abi, c, v, xl, "u_large")
+STail(t, abi, c, v, xl) ==
   IF abi.asint /\ t.w <= abi.wi /\ abi.wi < abi.wl
   THEN LET r == AsSigned(v, abi.wi) IN Verify(t, Sg(abi.wi), r.v, r.e, TRUE, "s_api_int")
   ELSE IF t.w <= abi.wl THEN LET r == AsSigned(v, abi.wl) IN Verify(t, Sg(abi.wl), r.v, r.e, TRUE, "s_api_long")
   ELSE IF t.w <= abi.wll THEN LET r == AsSigned(v, abi.wll) IN Verify(t, Sg(abi.wll), r.v, r.e, TRUE, "s_api_llong")
-  ELSE Large(t, abi, c, v, "s_large")
+  ELSE Large(t, abi, c, v, xl, "s_large")
 
 Lbl(s, n) == s \o ToString(n)
 \* __Pyx_PyULong_: x is not negative and not compact when internals are used
-ULong(t, abi, c, v) ==
+ULong(t, abi, c, v, xl) ==
   LET n == ND(v) IN
   IF c.internals THEN
     IF n \in 2..4 /\ t.w > (n - 1) * S /\ abi.wl > n * S
     THEN Verify(t, U(abi.wl), JoinMod(v, n, abi.wl), 0, FALSE, Lbl("u_join_long", n))
     ELSE IF n \in 2..4 /\ t.w > (n - 1) * S /\ t.w >= n * S
     THEN LET j == JoinT(t, v, n) IN IF j = eBad THEN R(0, 0, Lbl("u_join_T", n), "ub") ELSE R(j, 0, Lbl("u_join_T", n), "ok")
-    ELSE UTail(t, abi, c, v)
+    ELSE UTail(t, abi, c, v, xl)
   ELSE IF v < 0 THEN Err(t, eOverflow, "u_neg_cmp")      \* PyObject_RichCompareBool(x, Py_False, Py_LT)
-  ELSE UTail(t, abi, c, v)
+  ELSE UTail(t, abi, c, v, xl)
 \* __Pyx_PySLong_
-SLong(t, abi, c, v) ==
+SLong(t, abi, c, v, xl) ==
   LET a == Abs(v) n == ND(a) IN
   IF c.internals /\ n \in 2..4 /\ t.w > (n - 1) * S THEN
     IF v < 0 THEN
@@ -139,25 +141,25 @@ SLong(t, abi, c, v) ==
            ELSE Verify(t, Sg(abi.wl), -j, 0, FALSE, Lbl("sneg_join_long", n))
       ELSE IF t.w - 1 > n * S
       THEN LET j == JoinT(t, a, n) IN IF j = eBad THEN R(0, 0, Lbl("sneg_join_T", n), "ub") ELSE R(-j, 0, Lbl("sneg_join_T", n), "ok")
-      ELSE STail(t, abi, c, v)
+      ELSE STail(t, abi, c, v, xl)
     ELSE
       IF abi.wl > n * S
       THEN Verify(t, U(abi.wl), JoinMod(a, n, abi.wl), 0, FALSE, Lbl("spos_join_long", n))
       ELSE IF t.w - 1 > n * S
       THEN LET j == JoinT(t, a, n) IN IF j = eBad THEN R(0, 0, Lbl("spos_join_T", n), "ub") ELSE R(j, 0, Lbl("spos_join_T", n), "ok")
-      ELSE STail(t, abi, c, v)
-  ELSE STail(t, abi, c, v)
+      ELSE STail(t, abi, c, v, xl)
+  ELSE STail(t, abi, c, v, xl)
 \* __Pyx_PyLong_As_T(x) for a PyLong of value v
-PyLongConv(t, abi, c, v) ==
+PyLongConv(t, abi, c, v, xl) ==
   LET n == ND(Abs(v)) IN
   IF ~t.s THEN
     IF c.internals THEN
       IF v < 0 THEN Err(t, eOverflow, "u_neg")
       ELSE IF n <= 1 THEN Verify(t, U(abi.wc), v, 0, FALSE, "u_compact")
-      ELSE ULong(t, abi, c, v)
-    ELSE ULong(t, abi, c, v)
+      ELSE ULong(t, abi, c, v, xl)
+    ELSE ULong(t, abi, c, v, xl)
   ELSE IF c.internals /\ n <= 1 THEN Verify(t, Sg(abi.wc), v, 0, FALSE, "s_compact")
-  ELSE SLong(t, abi, c, v)
+  ELSE SLong(t, abi, c, v, xl)
 
 \* __Pyx_PyNumber_Long for a non-PyLong: nb_int slot, or PyNumber_Long() when type slots are not used
 NumberLong(c, o) ==
@@ -166,9 +168,9 @@ NumberLong(c, o) ==
   ELSE IF Idx(o).k # "none" THEN Idx(o)
   ELSE IF o.kind = "strlike" THEN Val(o.v) ELSE None
 GenConv(t, abi, c, o) ==
-  IF o.ck THEN PyLongConv(t, abi, c, o.v)
+  IF o.ck THEN PyLongConv(t, abi, c, o.v, IF o.kind = "sublong_ov" THEN o.v2 ELSE o.v)
   ELSE LET r == NumberLong(c, o) IN
-       IF r.k = "val" THEN [PyLongConv(t, abi, c, r.v) EXCEPT !.br = "np_value"]
+       IF r.k = "val" THEN [PyLongConv(t, abi, c, r.v, r.v) EXCEPT !.br = "np_value"]
        ELSE IF r.k = "raise" THEN Err(t, r.v, "np_raise")
        ELSE Err(t, eType, "np_typeerror")
 
@@ -219,6 +221,9 @@ AbisNamedA(ai) == {Abi(2*S + E, 2*S + E, 2*S + E, S + E, ai), Abi(S + E, 2*S + E
                    Abi(S + E, 2*S + E, 2*S + E, S + E, ai), Abi(4*S + E, 4*S + E, 4*S + E, 2*S + E, ai),
                    Abi(2*S + E, 4*S + E, 2*S + E, 2*S + E, ai)}
 AbisNamed == AbisNamedA(TRUE) \cup AbisNamedA(FALSE)
+AbisNamedF == AbisNamedA(FALSE)
+AbisCov == {Abi(2*S + E, 2*S + E, 2*S + E, S + E, TRUE), Abi(S + E, 2*S + E, S + E, S + E, FALSE), Abi(4*S + E, 4*S + E, 4*S + E, 2*S + E, FALSE)}
+AbisQuick4 == AbisCov \cup {Abi(S + E, 2*S + E, 2*S + E, S + E, FALSE)}
 \* PyLong_AsInt only matters where int is narrower than long
 AbisQuick == AbisNamedA(FALSE) \cup {Abi(2*S + E, 2*S + E, 2*S + E, S + E, TRUE), Abi(4*S + E, 4*S + E, 4*S + E, 2*S + E, TRUE)}
 \* every ordering of the widths relative to the digit boundaries, including widths that are exact multiples of S
@@ -239,11 +244,11 @@ ImgW == {S - 4, S - 2, S + E, 2*S + E, 4*S + E}
 TypesImg == {Ty(x[1], x[2], x[3]) : x \in ImgW \X BOOLEAN \X {"gen", "topy"}} \cup {Ty(2*S + E, TRUE, "ssz"), Ty(2*S + E, TRUE, "cssz")}
 SszTypes(abis) == {Ty(w, TRUE, p) : w \in {a.wc : a \in abis}, p \in {"ssz", "cssz"}}
 TypesSweepNamed == TypesSweep \cup SszTypes(AbisNamed)
-TypesSweepQuick == TypesSweep \cup SszTypes(AbisQuick)
+TypesSweepQuick == TypesSweep \cup SszTypes(AbisCov)
 TypesSweepAll == TypesSweep \cup SszTypes(AbisSweep)
 AbisLP64 == {AbiLP64}
 \* a thinner family for the branch-coverage run
-TypesCov == {Ty(x[1], x[2], x[3]) : x \in {2, S + 1, 2*S, 2*S + 1, 3*S, 3*S + 1, 4*S + 1, 5*S + 2} \X BOOLEAN \X {"gen", "topy"}} \cup SszTypes(AbisQuick)
+TypesCov == {Ty(x[1], x[2], x[3]) : x \in {2, S + 1, 2*S, 2*S + 1, 3*S, 3*S + 1, 4*S + 1, 5*S + 2} \X BOOLEAN \X {"gen", "topy"}} \cup SszTypes(AbisCov)
 TypesOne == {Ty(S + E, TRUE, "gen")}
 
 ---------------------------------------------------------------------------
@@ -259,10 +264,10 @@ NIForms(t) == {fm \in BitForms : fm.r = 0 /\ fm.d = 0 /\ fm.q \in {0, 1, 2, 3, 4
 RawF(v) == Form("raw", 0, 0, 1, v, 0, FALSE, FALSE)     \* ~Pub: the plain value travels in field d
 RawForm == RawF(0)
 
-Obj(kind, v) == [kind |-> kind, ck |-> kind = "pylong", v |-> v, v2 |-> v + 1]
+Obj(kind, v) == [kind |-> kind, ck |-> kind \in {"pylong", "sublong_ov"}, v |-> v, v2 |-> v + 1]
 LowVals == (-(P2(S * MaxK) + 2))..(P2(S * MaxK) + 2)
 HighVals == {x[3] * P2(S * x[1] + x[2]) + x[4] : x \in (0..HiK) \X {0, S - 1} \X {1, -1} \X {-1, 0, 1}} \ LowVals
-FewVals(t) == {Min(t) - 1, Min(t), Max(t), Max(t) + 1, 0, 1, -1, P2(S), -P2(S), P2(2*S) + 1, -P2(3*S), P2(4*S)}
+FewVals(t) == {Min(t) - 1, Min(t), Max(t), Max(t) + 1, 0, -1, P2(S), P2(2*S) + 1, -P2(3*S)}
 
 VARIABLES abi, c, ty, obj, form, res, pc
 vars == <<abi, c, ty, obj, form, res, pc>>
@@ -360,7 +365,7 @@ IsCase == pc # "root"
 IsConv == IsCase /\ ty.path # "topy"
 
 (* integers (int, bool, int subclasses): exact value or OverflowError, in every branch *)
-IntExact == (IsConv /\ obj.ck) => Out = Ref(ty, obj)
+IntExact == (IsConv /\ obj.kind = "pylong") => Out = Ref(ty, obj)
 (* C -> Python is the identity on the whole range of the type *)
 ToPyExact == (IsCase /\ ty.path = "topy") => (Out = obj.v /\ Fits(ty, obj.v))
 (* no undefined behaviour, no error indicator without the error return value *)
@@ -371,13 +376,16 @@ NoBad == IsCase => Out # eBad
 (*   gen/slots  : the nb_int slot is consulted where the reference consults nb_index               *)
 (*   gen/~slots : PyNumber_Long(): nb_int before nb_index, and parsing of str/bytes-like objects   *)
 (*   cssz       : PyLong_AsSsize_t never consults nb_index                                         *)
+(*   gen/chunks : the bit-chunk fallback of __Pyx_LargePyLong_ calls PyNumber_Long() on a non-exact *)
+(*                int, i.e. an overridden __int__ of an int subclass (types wider than long long)   *)
 (* and Py_ssize_t / Py_hash_t (ssz) never deviate                                                  *)
 Deviates == IsConv /\ Out # Ref(ty, obj)
 RootCause == Deviates =>
-   /\ ~obj.ck
-   /\ \/ ty.path = "gen" /\ c.slots /\ NbInt(obj) # Idx(obj)
-      \/ ty.path = "gen" /\ ~c.slots /\ ((NbInt(obj).k # "none" /\ NbInt(obj) # Idx(obj)) \/ obj.kind = "strlike")
-      \/ ty.path = "cssz" /\ Idx(obj).k = "val"
+   \/ obj.kind = "sublong_ov" /\ ty.path = "gen" /\ c.chunks /\ ty.w > abi.wll
+   \/ /\ ~obj.ck
+      /\ \/ ty.path = "gen" /\ c.slots /\ NbInt(obj) # Idx(obj)
+         \/ ty.path = "gen" /\ ~c.slots /\ ((NbInt(obj).k # "none" /\ NbInt(obj) # Idx(obj)) \/ obj.kind = "strlike")
+         \/ ty.path = "cssz" /\ Idx(obj).k = "val"
 (* deliberately false: TLC must refute it (the model exhibits the nb_int/nb_index deviation) *)
 NeverDeviates == ~Deviates
 
